@@ -336,8 +336,19 @@ func Seed(env *world.Env, name string) *world.World {
 	return b.W
 }
 
-// SeedBuilder builds the named seed state and returns the builder with its recorded legs.
+// SeedBuilder builds the named seed state on a freshly built set of function objects with env's
+// configuration (so that a recipe never depends on what env's objects executed before) and returns
+// the builder with its recorded legs.
 func SeedBuilder(env *world.Env, name string) *Builder {
+	fresh, err := world.NewEnv(env.Cfg)
+	if err != nil {
+		panic(err)
+	}
+	return SeedBuilderOn(fresh, name)
+}
+
+// SeedBuilderOn builds the named seed state on env's own function objects.
+func SeedBuilderOn(env *world.Env, name string) *Builder {
 	b := NewBuilder(env)
 	switch name {
 	case "empty":
